@@ -73,7 +73,7 @@ class Rng:
         return self.next() % n if n else 0
 
 
-def gen_script(seed, nranks, nphases, nops, bases, J, hpct=45, fwdpct=40, vmax=1, hot=70, vmap=None, twin=False, heavy=False, mask=False):
+def gen_script(seed, nranks, nphases, nops, bases, J, hpct=45, fwdpct=40, vmax=1, hot=70, vmap=None, twin=False, heavy=False, mask=False, swap=False):
     """returns (lines, universe, ops); ops = [(phase, rank, kind, d, k, v, d2, k2, v2)] — what the script asks for; what is
     actually contributed on a communicator of a given size is `contributions(ops, size)`.  twin: keys of two containers,
     container of key k = (k >> 20) >= J"""
@@ -90,6 +90,18 @@ def gen_script(seed, nranks, nphases, nops, bases, J, hpct=45, fwdpct=40, vmax=1
         v = 1 + g.below(vmax) if vmax > 1 else 1
         return vmap(v) if vmap else v
 
+    if swap:
+        # two batches of main-context contributions: every rank contributes a sorted list of keys, then (after the barrier
+        # at which the harness swaps the two maps) the same keys in the opposite order
+        per_rank = [sorted(key() for _ in range(nops)) for _ in range(nranks)]
+        for ph in (0, 1):
+            for r in range(nranks):
+                for k in (per_rank[r] if ph == 0 else per_rank[r][::-1]):
+                    v = val()
+                    lines.append(f"{r} i {k} {v}")
+                    ops.append((ph, r, "i", -1, k, v, -1, 0, 0))
+                lines.append(f"{r} b")
+        return lines, universe, ops
     hg = Rng(seed ^ 0x5eed0f10)       # separate stream: the ordinary script does not depend on `heavy`
 
     def heavy_segment(ph, r):
@@ -476,7 +488,8 @@ def run_case(binary, scratch, case, idx, mode="cset", extra_args=(), vmap=None):
     lines, universe, ops = gen_script(case["script_seed"], n, case["phases"], case["nops"], case["bases"], case["J"],
                                       hpct=case["hpct"], fwdpct=case["fwdpct"], vmax=case.get("vmax", 1), hot=case["hot"], vmap=vmap,
                                       twin=bool(case.get("twin")), heavy=bool(case.get("heavy")) and mode == "cset",
-                                      mask=bool(case.get("mask")) and mode in ("cset", "rmap", "rarr"))
+                                      mask=bool(case.get("mask")) and mode in ("cset", "rmap", "rarr"),
+                                      swap=bool(case.get("swap_script")))
     path = scratch.script(f"s{idx}.txt", lines, universe, case.get("len"))
     args = [mode, path] + (list(extra_args) or [0]) + [case.get("subcomm", 0), case.get("split", 0)]
     sr = C.run_sim(binary, args, nodes=case["nodes"], ppn=case["ppn"],
